@@ -7,6 +7,7 @@ import (
 	"fmt"
 	"io"
 	"sort"
+	"strings"
 	"testing"
 
 	"github.com/containerd/nri/pkg/api"
@@ -41,7 +42,7 @@ func TestVerifC18(t *testing.T) {
 	}
 	s := annotationSuffix
 	names := []string{"c", "cc", "xc"}
-	classes := []string{"swap", "noswap", "plain"}
+	classes := []string{"swap", "noswap", "plain", "<empty>"} // <empty>: the annotation is present with an empty value (no class), still beats the pod-level one
 	outcomes := map[string]bool{}
 	perms := map[int][][]int{}
 	for n := 0; n <= 6; n++ {
@@ -63,12 +64,12 @@ func TestVerifC18(t *testing.T) {
 							ann := map[string]string{}
 							eff := map[string]string{}
 							if cPod != "" {
-								ann["class"+s] = cPod
-								eff["class"] = cPod
+								ann["class"+s] = strings.TrimPrefix(cPod, "<empty>")
+								eff["class"] = ann["class"+s]
 							}
 							if cCtr != "" {
-								ann["class"+s+"/"+target] = cCtr
-								eff["class"] = cCtr
+								ann["class"+s+"/"+target] = strings.TrimPrefix(cCtr, "<empty>")
+								eff["class"] = ann["class"+s+"/"+target]
 							}
 							for _, kv := range []struct {
 								key string
